@@ -100,7 +100,15 @@ fn any_err(e: &Error) -> &'static str {
 }
 
 pub fn open(fmt: &str, bytes: Vec<u8>) -> Result<Wb, String> {
-    let cur = Cursor::new(bytes);
+    // "<fmt>+<n>" / "<fmt>+all": the reader handed over does not stand at offset 0 (the caller has
+    // read n bytes, or the whole file, before: sniffing a signature, hashing the file)
+    let (fmt, skip) = match fmt.split_once('+') {
+        Some((f, "all")) => (f, bytes.len() as u64),
+        Some((f, n)) => (f, n.parse::<u64>().unwrap_or(0).min(bytes.len() as u64)),
+        None => (fmt, 0),
+    };
+    let mut cur = Cursor::new(bytes);
+    cur.set_position(skip);
     match fmt {
         "xlsx" => Xlsx::new(cur).map(Wb::Xlsx).map_err(|e| xlsx_err(&e).to_string()),
         "xlsb" => Xlsb::new(cur).map(Wb::Xlsb).map_err(|e| xlsb_err(&e).to_string()),
